@@ -712,6 +712,9 @@ def build_scenario(kind, v):
         if kind == "iter":
             import e2_metric
             return e2_metric.iter_scenario(v)
+        if kind == "monotone":
+            import e2_search
+            return e2_search.monotone_scenario(v)
         if kind == "means":
             import e2_means
             return e2_means.scenario(v)
